@@ -1,7 +1,8 @@
 (* C04 - amounts print at commodity precision, correctly rounded, and re-read unchanged.
    Property theorems only (proofs: Proofs/RoundProofs.v, Proofs/AmountTextProofs.v). *)
-From LedgerV Require Import Base.Prelude Base.Round Model.Amount Model.AmountText
-  Proofs.RoundProofs Proofs.AmountTextProofs Gen.AmountConsts Gen.InvalidChars Gen.SourceGuards.
+From LedgerV Require Import Base.Prelude Base.Round Model.Amount Model.AmountText Model.DecimalComma
+  Proofs.RoundProofs Proofs.AmountTextProofs Proofs.DecimalCommaProofs Gen.AmountConsts Gen.InvalidChars Gen.SourceGuards
+  Gen.DecimalComma.
 From Coq Require Import Permutation.
 Local Open Scope Z_scope.
 
@@ -182,3 +183,107 @@ Proof. vm_compute. split; reflexivity. Qed.
 Theorem model_transcribes_current_source : forallb (fun b => b) src_guards_C04 = true.
 Proof. vm_compute. reflexivity. Qed.
 Print Assumptions model_transcribes_current_source.
+
+(* ---------------------------------------------------------------------------------------------------------------------
+   --decimal-comma (Model/DecimalComma.v).  The option enters the reader at one site and the printer at two; the three
+   conditions and the bytes written are transcribed from src/amount.cc on every run (Gen/DecimalComma.v,
+   harness/translators/c04_decimal_comma.py) and the theorems below are about the model instantiated with THEM. *)
+
+(* the sites read today: `decimal_comma_by_default || the commodity's flag` at all three, ',' for the point and '.' for
+   the mark when it holds, the buffer's '.' and ',' otherwise; the reader's final style is what the commodity learns; the
+   option sets the default *)
+Theorem decimal_comma_sites_match_source :
+  src_dc_reader_init = DcDefaultOrFlag /\
+  src_dc_print_point = (DcDefaultOrFlag, 44, 0) /\
+  src_dc_print_mark = (DcDefaultOrFlag, 46, 44) /\
+  src_dc_learned_from_reader_style = true /\
+  src_dc_option_sets_default = true.
+Proof. exact dc_sites_are_todays. Qed.
+Print Assumptions decimal_comma_sites_match_source.
+
+(* reader and printer decide alike, in every session and for every commodity: the reader expects a decimal comma exactly
+   when the printer writes one, and the printer's two sites agree (',' with '.' marks, or '.' with ',' marks) *)
+Theorem reader_and_printer_agree_on_decimal_comma : forall dcd flag,
+  reader_dc dcd flag = printed_dc dcd flag /\
+  printed_point dcd flag = (if printed_dc dcd flag then 44 else 46) /\
+  printed_mark dcd flag = (if printed_dc dcd flag then 46 else 44).
+Proof. exact reader_printer_agree. Qed.
+Print Assumptions reader_and_printer_agree_on_decimal_comma.
+
+(* the text built from the bytes of the two printer sites is quantity_text in the session's effective style *)
+Theorem printer_sites_give_the_session_style : forall dcd st tok neg N p zp,
+  quantity_text_sites dcd st tok neg N p zp = quantity_text (session_style dcd st) tok neg N p zp.
+Proof. exact quantity_text_sites_eq. Qed.
+Print Assumptions printer_sites_give_the_session_style.
+
+(* "decimal comma" as a learned style: a reader that starts in decimal-comma mode never leaves it, so every amount it
+   accepts teaches (or confirms) the style; under --decimal-comma that is every amount of every commodity *)
+Theorem decimal_comma_style_is_kept : forall s pa,
+  parse_amount_text true s = Ok pa -> st_decimal_comma (pa_style pa) = true.
+Proof. exact parse_keeps_dc. Qed.
+Print Assumptions decimal_comma_style_is_kept.
+
+Theorem decimal_comma_option_teaches_every_commodity : forall flag s pa,
+  parse_amount_text_session true flag s = Ok pa -> st_decimal_comma (pa_style pa) = true.
+Proof. exact option_teaches_decimal_comma. Qed.
+Print Assumptions decimal_comma_option_teaches_every_commodity.
+
+(* the positive side of F21 (reread_decimal_comma_ambiguous_refuted above): once the reader knows the style - the
+   commodity has learned it, or --decimal-comma is given - a decimal-comma text is read back as exactly the number
+   printed, for EVERY number of decimals (3, 6, 9, 12 included), with or without thousands periods *)
+Theorem reread_with_known_decimal_comma : forall N p sfx sep th,
+  0 <= N -> 0 < p ->
+  exists th', scan_quantity true (quantity_text (mkStyle sfx sep th true) true false N p p) = Ok (mkPQ N p th' true).
+Proof. exact dc_text_roundtrip. Qed.
+Print Assumptions reread_with_known_decimal_comma.
+
+Theorem reread_integer_with_known_decimal_comma : forall N sfx sep th,
+  0 <= N ->
+  exists th', scan_quantity true (quantity_text (mkStyle sfx sep th true) true false N 0 0) = Ok (mkPQ N 0 th' true).
+Proof. exact dc_integer_text_roundtrip. Qed.
+Print Assumptions reread_integer_with_known_decimal_comma.
+
+(* with the sites of the source: what a --decimal-comma session prints it reads back, whatever the commodity had learned *)
+Theorem reread_under_decimal_comma_option : forall flag N p sfx sep th,
+  0 <= N -> 0 < p ->
+  exists th', scan_quantity (reader_dc true flag)
+                (quantity_text_sites true (mkStyle sfx sep th flag) true false N p p) = Ok (mkPQ N p th' true).
+Proof. exact reread_under_option. Qed.
+Print Assumptions reread_under_decimal_comma_option.
+
+(* and in general: printed and re-read in the same session (option given or not, style learned or not), the text of
+   N / 10^p denotes N / 10^p, and the reader ends in the style the printer used *)
+Theorem reread_in_the_same_session : forall dcd flag N p sfx sep th,
+  0 <= N -> 0 < p ->
+  exists th', scan_quantity (reader_dc dcd flag)
+                (quantity_text_sites dcd (mkStyle sfx sep th flag) true false N p p) = Ok (mkPQ N p th' (dcd || flag)).
+Proof. exact reread_same_session. Qed.
+Print Assumptions reread_in_the_same_session.
+
+(* F21's witness: `310,200000` is 310.200000 to a session with the option and 310200000 to one without *)
+Example ex_f21_text_under_the_option :
+  quantity_text_sites true (mkStyle false false false false) true false 310200000 6 6 = [51;49;48;44;50;48;48;48;48;48] /\
+  scan_quantity (reader_dc true false) [51;49;48;44;50;48;48;48;48;48] = Ok (mkPQ 310200000 6 false true) /\
+  scan_quantity (reader_dc false false) [51;49;48;44;50;48;48;48;48;48] = Ok (mkPQ 310200000 0 true false).
+Proof. exact f21_text_under_the_option. Qed.
+
+(* the loop that removes the marks before mpq_set_str (amount_t::parse: a mark is skipped and the next character copied
+   unconditionally): digits pass unchanged and a mark standing between digits disappears, so a "digits mark digits" text
+   is handed to mpq_set_str as its digits alone - which is what the reader model's digits_value reads *)
+Theorem stripping_loop_leaves_digits : forall s, Forall (fun c => is_digit c = true) s -> strip_marks s = s.
+Proof. exact strip_marks_digits. Qed.
+Print Assumptions stripping_loop_leaves_digits.
+
+Theorem stripping_loop_accepts_plain_decimal_texts : forall c0 ip fp m,
+  Forall (fun c => is_digit c = true) (c0 :: ip) -> Forall (fun c => is_digit c = true) fp -> fp <> [] -> is_mark m = true ->
+  set_str_accepts ((c0 :: ip) ++ m :: fp) = true.
+Proof. exact set_str_accepts_plain_decimal. Qed.
+Print Assumptions stripping_loop_accepts_plain_decimal_texts.
+
+(* ... and on a malformed text with two marks side by side one of them survives, mpq_set_str refuses the text and the
+   amount is silently taken as zero: `1.,2 EUR` is 0 EUR with one decimal (ledger does this; the faithful model follows) *)
+Example ex_adjacent_marks_read_as_zero :
+  strip_marks [49;46;44;50] = [49;44;50] /\ set_str_accepts [49;46;44;50] = false /\
+  (exists pa, parse_amount_text_session false false [49;46;44;50;32;69;85;82] = Ok pa /\ pa_num pa = 0 /\ pa_prec pa = 1) /\
+  (exists pa, parse_amount_text_session false false [49;44;50;32;69;85;82] = Ok pa /\ pa_num pa = 12 /\ pa_prec pa = 1).
+Proof. exact adjacent_marks_read_as_zero. Qed.
